@@ -1,15 +1,18 @@
 // Package c18: environment binding substitutes exactly what is referenced and nothing else.
 //
 // (a) correspondence: (*Meta).IsBound, (*Meta).Bind, (*Unstructured).Build and template.Execute
-//     of the real tree on generated specs / value sets / documents, against
-//     Uniflow.Bind.{isBound,bind,build} and Uniflow.Template.run. text/template itself is
-//     trusted: for every string occurring in a case the harness records what the real
-//     text/template did with it (Parse ok?, Execute on each data value) and the model receives
-//     that table as its `TextTemplate` parameter; what is compared is the structural walk,
-//     the variable selection and the error/panic behaviour.
+//
+//	of the real tree on generated specs / value sets / documents, against
+//	Uniflow.Bind.{isBound,bind,build} and Uniflow.Template.run. text/template itself is
+//	trusted: for every string occurring in a case the harness records what the real
+//	text/template did with it (Parse ok?, Execute on each data value) and the model receives
+//	that table as its `TextTemplate` parameter; what is compared is the structural walk,
+//	the variable selection and the error/panic behaviour.
+//
 // (b) property oracle, independent of the model: a reference selection + reference
-//     substitution written directly in Go, "plain document comes back deeply equal",
-//     "no panic", "missing variable ⇒ error".
+//
+//	substitution written directly in Go, "plain document comes back deeply equal",
+//	"no panic", "missing variable ⇒ error".
 package c18
 
 import (
@@ -1036,6 +1039,19 @@ func genStr(r *lib.RNG, tmpls []string, pTmpl, pBad int) string {
 	return lib.Pick(r, plains)
 }
 
+// wideDocs: set by genCase for one case in ten – lists of 20–60 elements and maps of 8–40 keys appear among the
+// containers (a router with a few dozen routes, a header list, an allow-list): every other document has at most
+// three entries per container. (Seeded change c18k: a nesting guard whose depth counter leaked one unit per scalar
+// leaf refused every document of more than about thirty leaves.)
+var wideDocs bool
+
+func wideN(r *lib.RNG, small int) int {
+	if wideDocs && r.Chance(1, 3) {
+		return r.Range(20, 60)
+	}
+	return small
+}
+
 // genDoc: JSON-like document, depth ≤ 4, with nulls, empty and nil containers, scalars.
 func genDoc(r *lib.RNG, depth int, tmpls []string, pTmpl, pBad int) any {
 	w := []int{5, 2, 2, 2, 3, 3, 3}
@@ -1054,13 +1070,17 @@ func genDoc(r *lib.RNG, depth int, tmpls []string, pTmpl, pBad int) any {
 	case 3:
 		return lib.Pick(r, scalars)
 	case 4:
-		n := r.Intn(4)
+		n := wideN(r, r.Intn(4))
 		if n == 0 && r.Bool() {
 			return []any(nil)
 		}
 		l := make([]any, 0, n)
 		for i := 0; i < n; i++ {
-			l = append(l, genDoc(r, depth-1, tmpls, pTmpl, pBad))
+			d := depth - 1
+			if n > 3 {
+				d = min(d, 1) // a long list holds small elements
+			}
+			l = append(l, genDoc(r, d, tmpls, pTmpl, pBad))
 		}
 		return l
 	default:
@@ -1072,7 +1092,7 @@ func genDoc(r *lib.RNG, depth int, tmpls []string, pTmpl, pBad int) any {
 // a list of string lists, a map of strings, a map of string lists, a list of string maps.
 func genStrContainer(r *lib.RNG, tmpls []string, pTmpl, pBad int) any {
 	sl := func() any {
-		n := r.Intn(4)
+		n := wideN(r, r.Intn(4))
 		l := make([]any, 0, n)
 		for i := 0; i < n; i++ {
 			l = append(l, genStr(r, tmpls, pTmpl, pBad))
@@ -1118,6 +1138,9 @@ func genStrContainer(r *lib.RNG, tmpls []string, pTmpl, pBad int) any {
 
 func genMap(r *lib.RNG, depth int, tmpls []string, pTmpl, pBad int) map[string]any {
 	n := r.Intn(4)
+	if wideDocs && r.Chance(1, 3) {
+		n = r.Range(8, 40)
+	}
 	if n == 0 && r.Bool() {
 		return map[string]any(nil)
 	}
@@ -1125,6 +1148,10 @@ func genMap(r *lib.RNG, depth int, tmpls []string, pTmpl, pBad int) map[string]a
 	for i := 0; i < n; i++ {
 		// plain keys never start with 't'; templated keys carry a per-entry prefix, so rendered keys cannot collide
 		k := lib.Pick(r, []string{"a", "b", "c", "key", "", "k k"})
+		if n > 3 {
+			k = fmt.Sprintf("f%02d", i)
+			depth = min(depth, 2)
+		}
 		if pTmpl > 0 && r.Chance(1, 8) {
 			k = fmt.Sprintf("t%d-%s", i, lib.Pick(r, tmpls))
 		} else if pBad > 0 && r.Chance(1, 60) {
@@ -1137,6 +1164,8 @@ func genMap(r *lib.RNG, depth int, tmpls []string, pTmpl, pBad int) map[string]a
 
 func genCase(r *lib.RNG) *tcase {
 	tc := &tcase{ns: lib.Pick(r, nss)}
+	wideDocs = r.Chance(1, 10)
+	defer func() { wideDocs = false }()
 	nv := r.Intn(5)
 	for j := 0; j < nv; j++ {
 		v := gval{ns: lib.Pick(r, nss), data: genValData(r, j, 2)}
